@@ -137,3 +137,41 @@ func VH_C07_batch() {
 		vCover("sequential")
 	}
 }
+
+// the budget that counts is the one configured when the run starts: the same batch node, run once
+// and then given another budget through its builder, gives every failing item exactly that many
+// attempts in its next run
+func VH_C07_reconfigured() {
+	vUnwind(24)
+	n1, n2 := vNondet[int]("N1"), vNondet[int]("N2")
+	maxN := vParam("N", 3)
+	vAssume(1 <= n1 && n1 <= maxN && 1 <= n2 && n2 <= maxN)
+	n1, n2 = vConcrete(n1), vConcrete(n2)
+	attempts := [2]int{}
+	b := NewBatchNode().WithMaxRetries(n1).WithBatchConcurrency(vChoice("concurrency", 2)).
+		WithPrepFunc(func(ctx context.Context, s *SharedStore) ([]Result, error) {
+			return []Result{NewResult(100), NewResult(101)}, nil
+		}).
+		WithExecFunc(func(ctx context.Context, item Result) (Result, error) {
+			k := bIndex(item)
+			var err error
+			vMonC(1, func() {
+				attempts[k]++
+				if k == 0 {
+					err = vNewErr() // item 0 always fails
+				}
+			})
+			return item, err
+		})
+	Run(vNewCtx(), b, NewSharedStore())
+	vAssert(attempts[0] == n1 && attempts[1] == 1, "failing-item-gets-exactly-N-attempts")
+	b.WithMaxRetries(n2)
+	attempts = [2]int{}
+	Run(vNewCtx(), b, NewSharedStore())
+	vAssert(attempts[0] == n2 && attempts[1] == 1, "failing-item-gets-exactly-N-attempts")
+	if n2 > n1 {
+		vCover("budget-raised-between-runs")
+	} else if n2 < n1 {
+		vCover("budget-lowered-between-runs")
+	}
+}
